@@ -187,7 +187,7 @@ def run_history(case):
             if kind == 'addmatch':
                 ci = live[op[1] % len(live)]
                 rule = case['rules'][op[2] % len(case['rules'])]
-                text = ','.join("%s='%s'" % kv for kv in c12._expected_text_constraints(rule).items())
+                text = R.format_match_rule(c12._expected_text_constraints(rule).items())
                 r = clients[ci].call_bus('AddMatch', 's', [text])
                 if r is None or r['type'] != 2:
                     out.append(Disc('addmatch.refused', '%s: rule %r -> %r' % (where, text, r and r['body'])))
@@ -199,7 +199,7 @@ def run_history(case):
                 if not rules[ci]:
                     continue
                 rule = rules[ci][op[2] % len(rules[ci])]
-                text = ','.join("%s='%s'" % kv for kv in c12._expected_text_constraints(rule).items())
+                text = R.format_match_rule(c12._expected_text_constraints(rule).items())
                 r = clients[ci].call_bus('RemoveMatch', 's', [text])
                 if r is None or r['type'] != 2:
                     out.append(Disc('removematch.refused', '%s: rule %r -> %r' % (where, text, r and (r['fields'].get(4), r['body']))))
